@@ -346,6 +346,9 @@ def ref_pvalues(test, b, par=None):
     return {'distribution': igamc(3, float(chi) / 2), 'extreme values': float(p2)}
   if test == 'LinearComplexityScatter':
     step = par
+    if isinstance(par, (list, tuple)):        # (step, max_block_size): only the first step * max_block_size bits are tested
+      step = par[0]
+      b = b[:step * par[1]]
     def bm(seq):
       # textbook Berlekamp-Massey over GF(2) on a list of bits
       nbits = len(seq)
@@ -458,6 +461,8 @@ def call_test(ns, test, v, n, par):
     from paranoid_crypto.lib.randomness_tests import extended_nist_suite as ens
     if test == 'LargeBinaryMatrixRank':
       return ens.LargeBinaryMatrixRank(v, n)
+    if isinstance(par, (list, tuple)):
+      return ens.LinearComplexityScatter(v, n, par[0], par[1])
     return ens.LinearComplexityScatter(v, n, par)
   if test == 'OverlappingTemplateMatching' and isinstance(par, (list, tuple)):
     return ns.OverlappingTemplateMatching(v, n, par[0], par[1])
@@ -502,7 +507,11 @@ def stat_record(ns, sid, test, b, par=0, with_ref=True):
     ok = True
     st = int_stats(test, b)
     if test == 'LinearComplexityScatter':
-      st = {'sizes': [len(b[i::par]) for i in range(par)]}
+      if isinstance(par, (list, tuple)):
+        args['par'], args['maxblock'] = par[0], par[1]
+        st = {'sizes': [len(b[:par[0] * par[1]][i::par[0]]) for i in range(par[0])]}
+      else:
+        st = {'sizes': [len(b[i::par]) for i in range(par)]}
     if test == 'Universal' and n >= 387840:
       st = {'refL': max(L for L, mn in UNIVERSAL_MIN_N.items() if n >= mn)}      # the ladder the reference used (checked against NistStats.tla)
     if with_ref and test in TESTS_WITH_REF and in_domain(test, b) and not nan and not (test in ('Serial', 'ApproximateEntropy') and n > 12000):
@@ -511,7 +520,7 @@ def stat_record(ns, sid, test, b, par=0, with_ref=True):
         mm = max(2, min(22, n.bit_length() - 4))
       if test == 'ApproximateEntropy' and not par:
         mm = max(2, n.bit_length() - 7) if n < 2 ** 16 else n.bit_length() - 8 if n < 2 ** 20 else n.bit_length() - 9
-      ref = ref_pvalues(test, b, par if test in ('BinaryMatrixRank', 'OverlappingTemplateMatching', 'RandomWalk') else mm)
+      ref = ref_pvalues(test, b, par if test in ('BinaryMatrixRank', 'OverlappingTemplateMatching', 'RandomWalk', 'LinearComplexityScatter') else mm)
       if ref is not None:
         ref = {k: x for k, x in ref.items() if x is not None}
         if not set(ref) <= set(pv):
@@ -825,6 +834,10 @@ def run(ctx):
     for step in (1, 7, 32, 64):
       for cname in ('random', 'periodic'):
         jobs.append(('stat', ('x-Scatter-%d-%d-%s' % (n, step, cname), 'LinearComplexityScatter', strings(rng, n)[cname], step, True)))
+  # optional max_block_size: inputs shorter than, a little longer than and several times longer than step * max_block_size
+  for n, step, mb in [(1000, 7, 200), (1000, 7, 100), (3000, 7, 100), (4000, 32, 30), (4096, 64, 16), (2000, 1, 300), (9000, 7, 100)]:
+    for cname in ('random', 'periodic'):
+      jobs.append(('stat', ('x-ScatterMax-%d-%d-%d-%s' % (n, step, mb, cname), 'LinearComplexityScatter', strings(rng, n)[cname], (step, mb), True)))
   # (2c) optional parameters under call histories vs fresh processes
   for i in range(2 if ctx.quick else 8):
     jobs.append(('pure', ('p-%d' % i, ctx.seed * 100 + i)))
